@@ -128,6 +128,24 @@ def run_c11(ck, ctx):
             ck.violation('cli_governing_ihw', {'what': 'a data word must be judged against the active lanes of the IHW in front of it (also when that IHW itself fails its sanity check)',
                                                'variant': vname, 'lanes_previous_ihw': lanes1, 'lanes_governing_ihw': lanes2, 'data_word_lane': dlane,
                                                'expected_E72_at_data_word': expect_e72, 'got': sorted(got), 'input_hex': data.hex(), 'args': 'check all its'})
+    # ... and on a CONTINUATION page the governing IHW is the continuation page's own IHW, not the one of the first page of the frame
+    # (seeded C11-m5: active lanes cached from the initial IHW only)
+    for vname, lanes1, lanes2, dlane, expect_e72 in (('cont_lane_removed', 0b111, 0b011, 2, True), ('cont_lane_added', 0b011, 0b111, 2, False),
+                                                    ('cont_lane_swapped', 0b101, 0b110, 0, True), ('cont_same', 0b111, 0b111, 1, False)):
+        first_lane = 0 if lanes1 & 1 else 1
+        pk = [G.Pkt(dict(orbit=50, page=0, trig=0x6a03), [G.ihw(lanes1), G.tdh(trig=3, orbit=50), G.dw(0x20 + first_lane, b'\x00' * 9), G.tdt(done=0)]),
+              G.Pkt(dict(orbit=50, page=1, trig=0x6a03), [G.ihw(lanes2), G.tdh(trig=3, orbit=50, cont=1), G.dw(0x20 + dlane, b'\x00' * 9), G.tdt(done=1)]),
+              G.Pkt(dict(orbit=50, page=2, stop=1, trig=0x6a03), [G.ddw0()])]
+        data = G.encode(pk)
+        r = L.run_cli(['check', 'all', 'its'], data)
+        got = {(e[0], e[1]) for e in r.errors}
+        ck.case(('cli_governing_ihw', vname)); ck.count('cli_governing_ihw')
+        dw_at = (pk[0].size() + 64 + 20, 'E72')
+        others = {g for g in got if g != dw_at}
+        if ((dw_at in got) != expect_e72) or others:
+            ck.violation('cli_governing_ihw', {'what': 'on a continuation page a data word must be judged against the active lanes of that page\'s own IHW',
+                                               'variant': vname, 'lanes_first_page_ihw': lanes1, 'lanes_continuation_ihw': lanes2, 'data_word_lane': dlane,
+                                               'expected_E72_at_data_word': expect_e72, 'got': sorted(got), 'input_hex': data.hex(), 'args': 'check all its'})
     if not ctx['harness_ok']:
         ck.notes.append('C11: harness unavailable, unit correspondence skipped'); return
     impl, model, dis = corr(ck, 'word_sanity', reqs)
